@@ -134,6 +134,16 @@ func (e *Exec) intrinsic(caller *frame, fn *ssa.Function, name string, args []Va
 		case *Rat:
 			return false, true
 		}
+	case "math.Max", "math.Min":
+		x, xok := args[0].(float64)
+		y, yok := args[1].(float64)
+		if !xok || !yok {
+			e.unsupported("%s with symbolic arguments", name)
+		}
+		if name == "math.Max" {
+			return math.Max(x, y), true
+		}
+		return math.Min(x, y), true
 	case "math.Inf":
 		return math.Inf(int(int64(args[0].(uint64)))), true
 	case "math.NaN":
@@ -198,6 +208,19 @@ func (e *Exec) intrinsic(caller *frame, fn *ssa.Function, name string, args []Va
 	case "runtime.Gosched":
 		e.yield()
 		return nil, true
+	case "reflect.ValueOf":
+		return Native{reflectVal{args[0].(Iface)}}, true
+	case "(reflect.Value).IsZero":
+		rv := args[0].(Native).V.(reflectVal)
+		if rv.v.T == nil {
+			panic(targetPanic{v: Iface{T: types.Typ[types.String], V: "reflect: call of reflect.Value.IsZero on zero Value"}})
+		}
+		switch r := e.equal(rv.v.T, rv.v.V, zero(rv.v.T)).(type) {
+		case bool:
+			return r, true
+		case *Term:
+			return e.simpBool(r), true
+		}
 	case "regexp.MustCompile":
 		return Native{regexp.MustCompile(e.strArg(args[0]))}, true
 	case "(*regexp.Regexp).Match":
@@ -242,6 +265,8 @@ func (e *Exec) intrinsic(caller *frame, fn *ssa.Function, name string, args []Va
 	return nil, false
 }
 
+type reflectVal struct{ v Iface }
+
 // Native wraps an opaque natively evaluated object (e.g. a compiled regular expression).
 type Native struct{ V any }
 
@@ -260,7 +285,7 @@ func (e *Exec) bytesArg(v Value) []byte {
 
 var intrinsicNames = []string{
 	"math.Pow", "math.Log2", "math.Sqrt", "math.Floor", "math.Ceil", "math.Trunc", "math.Log", "math.Log10", "math.Exp",
-	"math.Round", "math.Abs", "math.Signbit", "math.IsNaN", "math.IsInf", "math.Inf", "math.NaN", "math.Nextafter",
+	"math.Max", "math.Min", "math.Round", "math.Abs", "math.Signbit", "math.IsNaN", "math.IsInf", "math.Inf", "math.NaN", "math.Nextafter",
 	"math.Float64bits", "math.Float64frombits", "math/bits.Mul64", "math/bits.Add64", "math/bits.Sub64",
 	"fmt.Sprint", "fmt.Sprintln", "fmt.Sprintf", "fmt.Errorf", "fmt.Fprintf", "fmt.Fprintln", "fmt.Fprint", "fmt.Printf", "fmt.Println", "fmt.Print",
 	"log.Println", "log.Printf", "log.Print", "log.Fatalf", "log.Fatal", "log.Fatalln", "os.Exit",
@@ -268,6 +293,7 @@ var intrinsicNames = []string{
 	"(*sync.WaitGroup).Add", "(*sync.WaitGroup).Done", "(*sync.WaitGroup).Wait",
 	"(*sync.Mutex).Lock", "(*sync.Mutex).Unlock", "(*sync.RWMutex).Lock", "(*sync.RWMutex).Unlock", "(*sync.RWMutex).RLock", "(*sync.RWMutex).RUnlock",
 	"runtime.Gosched",
+	"reflect.ValueOf", "(reflect.Value).IsZero",
 	"regexp.MustCompile", "(*regexp.Regexp).Match", "(*regexp.Regexp).MatchString", "(*regexp.Regexp).FindStringSubmatch",
 	"strings.ToLower", "strings.ToUpper", "strings.Contains", "strings.HasPrefix", "strings.HasSuffix", "strings.Repeat",
 	"strconv.ParseUint", "strconv.ParseInt",
@@ -346,6 +372,17 @@ func (e *Exec) harnessAPI(caller *frame, fn *ssa.Function, short string, args []
 		}
 		t := e.declareInput(name, SInt, 0, lo, hi, "dyadic:"+strconv.Itoa(shift))
 		return e.ratFinish(t, pow2(shift), false), true
+	case "verifDyadicOf":
+		shift := int(args[1].(uint64))
+		switch n := args[0].(type) {
+		case uint64:
+			return float64(int64(n)) / math.Ldexp(1, shift), true
+		case *Term:
+			if e.mode == ModeBits {
+				return f.FPBin("fp.div", f.FPFromBV(n, true), f.FP(math.Ldexp(1, shift))), true
+			}
+			return e.ratFinish(n, pow2(shift), false), true
+		}
 	case "verifFloatOfInt1e10":
 		switch n := args[0].(type) {
 		case uint64:
@@ -372,6 +409,19 @@ func (e *Exec) harnessAPI(caller *frame, fn *ssa.Function, short string, args []
 		return nil, true
 	case "verifNote":
 		e.note(e.strArg(args[0]))
+		return nil, true
+	case "verifEvent":
+		sc := e.sch()
+		sc.events = append(sc.events, Event{G: sc.cur.id, Kind: "marker"})
+		return nil, true
+	case "verifSlow":
+		e.yield()
+		return nil, true
+	case "verifMapOrder":
+		e.mapOrderMode = int(int64(args[0].(uint64)))
+		return nil, true
+	case "verifEmit":
+		e.res.Emits = append(e.res.Emits, e.strArg(args[0]))
 		return nil, true
 	case "verifConcretizeInt", "verifConcretizeUint", "verifConcretizeInt64":
 		t := fn.Signature.Params().At(0).Type()
@@ -533,26 +583,65 @@ func (e *Exec) sprintf(format string, args Slice) string {
 			continue
 		}
 		j := i + 1
-		for j < len(format) && strings.ContainsRune("+-# 0123456789.*[]", rune(format[j])) {
+		for j < len(format) && strings.ContainsRune("+-# 0123456789.", rune(format[j])) {
 			j++
 		}
 		if j >= len(format) {
 			break
 		}
 		verb := format[j]
+		spec := format[i : j+1]
 		i = j
 		if verb == '%' {
 			sb.WriteByte('%')
 			continue
 		}
-		if ai < len(args.A) {
-			sb.WriteString(e.fmtValue(args.A[ai]))
-			ai++
-		} else {
+		if ai >= len(args.A) {
 			sb.WriteString("%!" + string(verb) + "(MISSING)")
+			continue
 		}
+		a := args.A[ai]
+		ai++
+		sb.WriteString(e.fmtOne(spec, verb, a))
 	}
 	return sb.String()
+}
+
+// fmtOne formats one operand; integers, floats and strings go through the real fmt with the original verb.
+func (e *Exec) fmtOne(spec string, verb byte, a Value) string {
+	iv, ok := a.(Iface)
+	if ok && iv.T != nil {
+		switch v := iv.V.(type) {
+		case uint64:
+			if isIntType(iv.T) && strings.ContainsRune("dvxXobc", rune(verb)) {
+				if isSigned(iv.T) {
+					return fmt.Sprintf(spec, int64(v))
+				}
+				return fmt.Sprintf(spec, v)
+			}
+		case float64:
+			if strings.ContainsRune("feEgGv", rune(verb)) {
+				return fmt.Sprintf(spec, v)
+			}
+		case string:
+			if verb == 's' || verb == 'v' || verb == 'q' {
+				if e.findMethod(iv.T, "Error") == nil && e.findMethod(iv.T, "String") == nil {
+					return fmt.Sprintf(spec, v)
+				}
+			}
+		case bool:
+			if verb == 't' || verb == 'v' {
+				return fmt.Sprintf(spec, v)
+			}
+		}
+	}
+	if verb == 'T' && ok {
+		if iv.T == nil {
+			return "<nil>"
+		}
+		return iv.T.String()
+	}
+	return e.fmtValue(a)
 }
 
 func (e *Exec) newError(msg string) Value {
